@@ -1,5 +1,5 @@
 """Which units and lemmas serve which property (DESIGN §4/§5)."""
-from . import sm, ps, ef, z, mainspec, dynrf
+from . import sm, ps, ef, z, mainspec, dynrf, mainloop, io
 
 A_IDEAL = 'A-IDEAL: float/double arithmetic treated as real arithmetic, source literals exact (rounding not modelled)'
 A_SUMCOMM = 'L-SUMCOMM: interchange of finite double sums (column sums = 1 => total conserved) not machine-checked'
@@ -11,11 +11,9 @@ NOT_APPLICABLE = {
     'C11': 'relation between two complete program executions through an HDF5 file; no function contract expresses it (DESIGN §6)',
     'C20': 'behaviour is produced inside boost::program_options; a contract proof would be about an axiomatisation of boost (DESIGN §6)',
 }
-for _p in ('C05 C10 C12 C13 C14').split():
-    NOT_APPLICABLE[_p] = PENDING
 
 SM_KICK = [sm.CalcCoefficiants, sm.UpdateSM, sm.KickMapApply, sm.SourceMapCtor, sm.SourceMapCtor7, sm.KickMapCtor,
-           sm.RFCalcKick, sm.RFKickMapLinearCtor, sm.RFKickMapSinCtor, sm.DriftMapCtor]
+           sm.RFCalcKick, sm.RFKickMapLinearCtor, sm.RFKickMapSinCtor, sm.DriftMapCtor, sm.WakePotentialMapUpdate]
 SM_FP = [sm.FokkerPlanckCtor, sm.FokkerPlanckApply]
 TECH = 'contract-based deductive verification: contracts (specs/*.py) enforced on the real functions by a VCG over the clang AST, z3 (cvc5 second opinion); lemma layer over contract symbols'
 
@@ -174,5 +172,61 @@ PROPERTIES = {
         'uncovered': ['that main flushes the records at every output step and once at the end (control skeleton of main)', 'HDF5File::appendRFKicks (library calls)'],
         'explanation': 'constructor-state and queue contracts of DynamicRFKickMap',
         'technique': TECH,
+    },
+    'C05': {
+        'units': [mainloop.MainLoop, mainspec.MainConfig, sm.WakePotentialMapUpdate, sm.RFCalcKick, sm.DriftMapCtor, sm.FokkerPlanckCtor, ef.WakePotential, sm.UpdateSM, sm.KickMapApply],
+        'lemmas': [sm.lemmas_fp, sm.lemmas_c03],
+        'level': 'other',
+        'claim': 'the ingredients of the stationary (Haissinski) relation are proved on the code: within one step the wake potential is computed from the projection left by the previous step, then wake kick, RF kick, drift, '
+                 'damping/diffusion, projection — in this order for every output cadence; the wake kick offsets are scale*IDFT(Z*DFT(profile)) read back per bunch; RF and drift laws; unit-variance diffusion moments; dt and revolution part. '
+                 'The derivation from these facts to ln rho + q^2/2 - (1/dtheta) int W = const is in lemmas/C05.md and is not machine-checked',
+        'assumptions': [A_IDEAL, A_LIB, DROPS, 'event contracts of the control skeleton abstract each callee by an uninterpreted function of the locations its verified contract reads'],
+        'uncovered': ['the ElectricField scale-factor constructor is not under contract; ElectricField class invariants are assumed at the call in WakePotentialMap::update', 'the equilibrium statement itself'],
+        'explanation': 'control skeleton of main + contracts of the force-law units',
+        'technique': TECH,
+    },
+    'C12': {
+        'units': [mainloop.MainLoop, ps.Integrate, ps.Variance, ps.UpdateYProjection, ps.UpdateXProjection, ef.UpdateCSR, sm.KickMapApply, sm.FokkerPlanckApply, sm.IdentityApply],
+        'lemmas': [],
+        'level': 'other',
+        'claim': 'one loop iteration maps the physics state (three grids, x-projection, wake offsets, tracked particles) to the same value whether or not the output block runs: proved on main by a relational invariant over event contracts; '
+                 'the frames of the observation functions (integrate, variance, updateYProjection, updateCSR) and of the transport maps are proved on their own code',
+        'assumptions': [A_IDEAL, A_LIB, DROPS, 'FFTW plans deterministic', 'HDF5File::append* and Display do not write simulation state (not under contract)', 'bit-identity is argued from equal operations on equal inputs, not from IEEE semantics'],
+        'uncovered': ['verbosity and file name independence', 'equality of two separate program runs'],
+        'explanation': 'relational step invariant on the control skeleton plus frame postconditions',
+        'technique': TECH,
+    },
+    'C14': {
+        'units': [mainloop.MainLoop],
+        'lemmas': [],
+        'level': 'other',
+        'claim': 'with the abort flag modelled as a monotone flag that may become set at every read, the loop can only be left at its head (a step in progress completes), the final-record block then appends exactly one record for the state reached when a file is open, '
+                 'all time-indexed datasets have equal length at exit, pending RF records are flushed, a closing message is printed and main returns EXIT_SUCCESS',
+        'assumptions': [DROPS, 'the SIGINT handler only sets Display::abort (not under contract: one assignment)', 'signal delivery does not make library calls fail', 'set-up phase before the loop is not covered'],
+        'uncovered': ['signals during set-up', 'HDF5 library behaviour under EINTR', 'identity of earlier records with the uninterrupted run (follows from C12 claim)'],
+        'explanation': 'posts of the control skeleton at function exit',
+        'technique': TECH,
+    },
+    'C10': {
+        'units': [mainloop.MainLoop, ps.UpdateXProjection, ps.UpdateYProjection, ps.Integrate, ps.Variance, ef.WakePotential, ef.UpdateCSR],
+        'lemmas': [],
+        'level': 'other',
+        'claim': 'partial: at every output event and at exit the CSR, wake-potential and particle datasets receive as many records as the time axis; the time value of the final record is simulationstep/steps; the derived quantities appended are the ones '
+                 'computed by the verified projection/moment/CSR functions from the current grid (refresh calls precede the append in the skeleton); pending RF records are flushed at exit',
+        'assumptions': [DROPS, 'HDF5File is not under contract: which dataset each append overload extends is taken from reading the code, the HDF5 library is trusted'],
+        'uncovered': ['axes datasets (known defect: energy axis written from axis 0 — see DESIGN §7 item 5, not fixed in this round)', 'unit-conversion attributes', 'per-bunch row strides of /CSR/Spectrum', 'time values of intermediate records'],
+        'explanation': 'ghost row counters on the control skeleton',
+        'technique': TECH,
+    },
+    'C13': {
+        'units': [io.ProgramOptionsSave],
+        'lemmas': [],
+        'level': 'other',
+        'claim': 'writer logic only: every option registered in the constructor (name and value type as resolved by clang) that is not in the writer own skip list has a value type the writer can write; alpha0 is replaced by 0 only when a synchrotron frequency is given; '
+                 'the parent config name is written as a comment',
+        'assumptions': ['boost::program_options parses what the writer prints (text round trip of numbers, repeated keys for vector options) — not modelled', 'AST pattern extraction of the registration table (59 options found on the pinned tree; fewer than 40 aborts)'],
+        'uncovered': ['floating-point text formatting precision', 'options given in a parent config file (stored by program_options like any other)', 'that rerunning reproduces the results'],
+        'explanation': 'obligations over facts extracted from the real AST of the constructor and of save()',
+        'technique': 'contract over AST-extracted registration/dispatch tables (writer covers every registered value type), z3 for the alpha0 branch condition',
     },
 }
